@@ -384,6 +384,17 @@ func (c C07Case) emit1() c07Obs {
 			panic("prelude changed the flags")
 		}
 	}
+	if (len(c.Msg)+len(c.Chain)+len(c.Ctx))%2 == 0 {
+		// in half of the cases (last flag operation before the call) the inherit flag reaches its value through a temporary change and its restore
+		// (SaveFlagsAndMod with the flag toggled, then the function it returned)
+		var restore func()
+		if c.Inherit {
+			restore = slog.SaveFlagsAndMod(0, slog.LattrsR)
+		} else {
+			restore = slog.SaveFlagsAndMod(slog.LattrsR)
+		}
+		restore()
+	}
 	if twice {
 		call()
 		args = c07Raw(c.Args) // the same values, built again
